@@ -36,7 +36,9 @@ ASSUMPTIONS = ['Python eval is the reference for the value of a Python expressio
 
 LITS = ['a', ' ', '<', '>', '&', '&amp;', '"', "'", '$', '$$', '{', '}', '\n', '\r\n', 'é', '<p tal:content="v">',
         '</p>', '<!--', '-->', '<?python x ?>', '<![CDATA[', ']]>', 'tal:', ';', '\t', '日本', '<!--!', '\\',
-        '<p>', '$a', '$ {', '</', '<?xml version="1.0"?>', '&lt;', '#{', '%s', '%']
+        '<p>', '$a', '$ {', '</', '<?xml version="1.0"?>', '&lt;', '#{', '%s', '%',
+        # U+FEFF in a str is a character like any other (a CSV export begins with it on purpose); only byte input has a mark
+        '\ufeff']
 
 
 def gen_case(rng, allow_entity_in_expr):
@@ -189,7 +191,7 @@ def run(ctx):
                 key = classify(parts, env, src, exp, got)
                 ctx.violation(key, 'text template %r rendered %r, expected %r' % (src, got, exp),
                               {'kind': 'text', 'src': src, 'expected': exp})
-            if done % 8 == 0:
+            if done % 8 == 0 and not src.startswith('\ufeff'):       # (in a FILE a leading U+FEFF is the byte-order mark)
                 for enc in ('utf-8', 'latin-1', 'out-latin-1', 'out-cp1252', 'bom-utf-8-sig', 'bom-utf-16', 'bom-utf-32'):
                     fn = os.path.join(tmp, 't%d.txt' % (done % 5))
                     # 'out-X': the file is stored as UTF-8 but the template's (output) encoding is X
